@@ -116,3 +116,16 @@ dump("C16", "deepcopy-detaches-frozen-distribution",
      dict(base, kind="hist", entry="param", sim=sim, pdict=pdict_frozen, grid=grid, max_steps=60,
           target={"entry": "simulate_param", "n": 2, "n_form": "int", "seed": 55},
           instances=[{"prep": "same", "grid_form": "array", "histories": [{"kind": "deepcopy", "ops": [{"op": "integrate", "grid": ogrid}, {"op": "deepcopy"}]}]}]))
+
+# seeded C16-c1 (third round): a (sampler, args) entry whose sampler draws through pygom.utilR.rbeta (wrapper `rbeta_w` of c16: rbeta
+# returns an array also for n = 1); one and three iterations, both entry points, mixed with rgamma / a frozen distribution / a number
+pdict_rbeta = [{"name": "beta", "kind": "tuple", "sampler": "rbeta_w", "args": [20.0, 20.0, 1.0]},
+               {"name": "gamma", "kind": "tuple", "sampler": "rgamma", "args": [100.0, 400.0]}]
+pdict_rbeta_mixed = [{"name": "gamma", "kind": "frozen", "dist": "gamma", "args": [100.0, 0.0, 0.0025]},
+                     {"name": "beta", "kind": "tuple", "sampler": "rbeta_w", "kwargs": {"shape1": 20.0, "shape2": 20.0, "scale": 1.0}},
+                     {"name": "N", "kind": "fixed", "value": 23.0}]
+for entry, n, pd, slug in (("solve_determ", 1, pdict_rbeta, "one-iteration"), ("simulate_param", 3, pdict_rbeta_mixed, "mixed-dict")):
+    dump("C16", "seeded-C16-c1-sampler-drawing-through-rbeta-%s-%s" % (entry, slug),
+         dict(base, kind="param", sim=dict(sim, np_seed=31337), pdict=pd, grid=grid, form="tuple", n=n,
+              A={"entry": entry, "n": n, "n_form": "int"}, B={"entry": "simulate_param" if entry == "solve_determ" else "solve_determ", "n": 2},
+              grid_form="array", prep=["none", "same"], seed2=31338, seed3=31339))
